@@ -469,6 +469,10 @@ def run(cx, rep):
     # ---------------------------------------------------------------- C01.7
     rep.rule("C01.7", "the printer takes IR nodes apart without dropping a field")
     partial_projection_rule(cx, rep, "C01.7")
+    # ---------------------------------------------------------------- C01.14 (= C15.10)
+    rep.rule("C01.14", "the regex of a template literal type is built from the text its chunks stand for (cooked), and the description escapes it again")
+    from rules.c15 import template_chunk_rule
+    template_chunk_rule(cx, rep, "C01.14")
     # ---------------------------------------------------------------- C01.12 (= C08.6)
     rep.rule("C01.12", "narrowing a property declared by two intersection members keeps the narrower type whichever member comes first")
     from rules.c08 import symmetric_merge_rule
@@ -532,3 +536,6 @@ def run(cx, rep):
     # ---------------------------------------------------------------- C01.11
     rep.rule("C01.11", "validate(): every element of an array-valued constructor argument is accounted for (no fixed-size prefix)")
     ts_common.truncation_rule(cx, rep, "C01.11", ['validate'])
+    # ---------------------------------------------------------------- C01.13
+    rep.rule("C01.13", "validate() looks at every index of an input array (no hole-skipping walk of the input)")
+    ts_common.hole_skipping_rule(cx, rep, "C01.13", ['validate'])
